@@ -323,6 +323,8 @@ def with_case_watchdog(fn):
 def evaluate(prop, spec, ctx):
     """One case in collect (or shrink-target) mode. Returns nothing; never raises in
     collect mode except for harness errors."""
+    if not ctx.collect and ctx.shrink_deadline and time.time() > ctx.shrink_deadline:
+        raise ShrinkStop()
     try:
         nt = with_case_watchdog(lambda: prop.check(spec, ctx))
     except Violation as v:
@@ -436,6 +438,94 @@ def run_shrink(prop, tier, shard_seed, examples, bucket, budget_s):
 
 
 Ctx.shrink_deadline = None
+
+
+def reduce_spec(prop, spec, bucket, budget_s):
+    """Delta-debugging on the declarative spec itself (used when re-running the seeded search does not reach the
+    failure within its budget): remove list elements in halves / singly, drop optional dict keys, round numbers - keeping
+    a candidate only if the *same bucket* still fails.  Candidates that are not valid specs simply do not fail."""
+    t0 = time.time()
+    tried = [0]
+
+    def fails(cand):
+        if time.time() - t0 > budget_s:
+            raise ShrinkStop()
+        tried[0] += 1
+        ctx = Ctx(prop.ID, "shrink", 0)
+        try:
+            with_case_watchdog(lambda: prop.check(cand, ctx))
+        except Violation as v:
+            return v.bucket == bucket and v.msg
+        except (StopSearch, HarnessError, KeyError, IndexError, TypeError, ValueError, AttributeError, ZeroDivisionError):
+            return False
+        return False
+
+    def paths(x, pre=()):
+        if isinstance(x, list):
+            yield pre, x
+            for i, v in enumerate(x):
+                yield from paths(v, pre + (i,))
+        elif isinstance(x, dict):
+            yield pre, x
+            for k, v in x.items():
+                yield from paths(v, pre + (k,))
+
+    def get(x, path):
+        for k in path:
+            x = x[k]
+        return x
+
+    import copy
+
+    best, msg = spec, None
+    try:
+        changed = True
+        while changed:
+            changed = False
+            for path, node in list(paths(best)):
+                try:
+                    node = get(best, path)
+                except (KeyError, IndexError, TypeError):
+                    continue
+                if isinstance(node, list) and len(node) > 1:
+                    n = len(node)
+                    size = n // 2
+                    while size >= 1:
+                        i = 0
+                        while i < len(get(best, path)):
+                            cand = copy.deepcopy(best)
+                            del get(cand, path)[i:i + size]
+                            if len(get(cand, path)) >= 1:
+                                m = fails(cand)
+                                if m:
+                                    best, msg, changed = cand, m, True
+                                    continue
+                            i += size
+                        size //= 2
+                elif isinstance(node, dict):
+                    for k in list(node):
+                        if path == () and k in ("kind", "labels", "data", "history", "opts", "des", "ws", "ss", "cons", "text", "unit", "t"):
+                            continue
+                        cand = copy.deepcopy(best)
+                        del get(cand, path)[k]
+                        m = fails(cand)
+                        if m:
+                            best, msg, changed = cand, m, True
+            for path, node in list(paths(best)):
+                cont = get(best, path)
+                keys = range(len(cont)) if isinstance(cont, list) else list(cont)
+                for k in keys:
+                    v = cont[k] if not isinstance(cont, list) or k < len(cont) else None
+                    if isinstance(v, float) and v != round(v):
+                        cand = copy.deepcopy(best)
+                        get(cand, path)[k] = float(round(v))
+                        m = fails(cand)
+                        if m:
+                            best, msg, changed = cand, m, True
+                            cont = get(best, path)
+    except ShrinkStop:
+        pass
+    return (best, msg) if msg else None
 
 
 def _chunk_entry(args):
